@@ -6,6 +6,7 @@
 -/
 import OpmVerif.Model.EclBin
 import OpmVerif.Gen.ExtESmrySeek
+import OpmVerif.Gen.ESmrySeek
 
 namespace OpmVerif.ExtESmry
 open OpmVerif.Ecl
@@ -65,5 +66,24 @@ def basePart {α : Type} (ownRestart rstNum : Int) (rstep : List Int) (steps : L
 def ones : List Int → Nat
   | [] => 0
   | v :: vs => (if v = 1 then 1 else 0) + ones vs
+
+end OpmVerif.ExtESmry
+
+namespace OpmVerif.ExtESmry
+
+/-! ### the SMSPEC reader (`ESmry`): the same chain, scanned with `>=` -/
+
+/-- `ESmry` constructor, scan of one run: time steps are taken one after the other; a step that
+completes a report step (`flag = 1`: the next array is SEQHDR, or the file ends) increments the
+counter; the scan stops behind the first step at which the counter has reached `target`.
+Returns the number of time steps taken. -/
+def scanCount (c0 target : Int) : List Int → Nat
+  | [] => 0
+  | v :: vs =>
+    let c := if v = 1 then c0 + 1 else c0
+    if c ≥ target then 1 else 1 + scanCount c target vs
+
+def esmryCountStart (ownRestart : Int) : Int :=
+  if Gen.ESmrySeek.chainCounterStartsAtRestartStep then ownRestart else 0
 
 end OpmVerif.ExtESmry
